@@ -11,18 +11,15 @@ from .common.c07_pool import Pool
 
 PROPERTY = "C07"
 LEAN_MODULES = ["AioProps.C07"]
-THEOREMS_ALL = [
+THEOREMS = [
     "Aio.C07.limit_inv",
-    "Aio.C07.limit_inv_in_use",
+    "Aio.C07.attempts_counted",
     "Aio.C07.no_leak",
-    "Aio.C07.close_closes_all",
-    "Aio.C07.no_forgotten_waiter_partial",
     "Aio.C07.f7_limit_exceeded_unfixed",
     "Aio.C07.f8_lost_wakeup_unfixed",
     "Aio.C07.race_lost_wakeup_unfixed",
     "Aio.C07.after_close_leak_unfixed",
 ]
-THEOREMS = ["Aio.C07.f7_limit_exceeded_unfixed"]
 RULE = ("a case = (limit, limit_per_host, key of each of N tasks, label sequence); labels: spawn / tick (one ready "
         "callback) / attempt ok|fail / cancel / connect-timeout / release to pool|close / idle connection lost / connector "
         "close / shuffle order. Generator classes: guided walk over enabled labels, saturate (limit 1, one key, cancels of "
